@@ -38,6 +38,7 @@ type Probe struct {
 	Ren  string                   `control:"X-Renamed"`
 	Req  string                   `required:"true"`
 	ReqL []string                 `required:"true"`
+	ReqC []string                 `control:"Req-C" required:"true" delim:"," strip:" "`
 	Skip string                   `control:"-"`
 	M    string                   `multiline:"true"`
 	P    *version.Version
@@ -62,13 +63,14 @@ type ProbeP struct {
 	Ren  string                   `control:"X-Renamed"`
 	Req  string                   `required:"true"`
 	ReqL []string                 `required:"true"`
+	ReqC []string                 `control:"Req-C" required:"true" delim:"," strip:" "`
 	Skip string                   `control:"-"`
 	M    string                   `multiline:"true"`
 	P    *version.Version
 }
 
 // value alphabet: per field, index 0 is the default (zero / baseline), others are the deviations
-var fieldNames = []string{"S", "I", "U", "B", "L", "LC", "LN", "LI", "V", "D", "A", "AL", "H", "Ren", "Req", "ReqL", "Skip", "M", "P"}
+var fieldNames = []string{"S", "I", "U", "B", "L", "LC", "LN", "LI", "V", "D", "A", "AL", "H", "Ren", "Req", "ReqL", "ReqC", "Skip", "M", "P"}
 
 func mustVer(s string) version.Version {
 	v, err := version.Parse(s)
@@ -131,6 +133,8 @@ func values(name string) []interface{} {
 		return []interface{}{"q", "", "q r"}
 	case "ReqL":
 		return []interface{}{[]string{"x"}, []string(nil), []string{"a", "b"}}
+	case "ReqC":
+		return []interface{}{[]string{"x"}, []string(nil), []string{"a", "b c"}}
 	case "Skip":
 		return []interface{}{"", "zzz"}
 	case "M":
@@ -170,7 +174,7 @@ func features(in In) []string {
 				f = append(f, "uint-field-set")
 			case "P":
 				f = append(f, "pointer-field-set")
-			case "ReqL":
+			case "ReqL", "ReqC":
 				if c == 1 {
 					f = append(f, "required-list-empty")
 				}
@@ -216,6 +220,9 @@ func keyOf(name string) string {
 	if name == "Ren" {
 		return "X-Renamed"
 	}
+	if name == "ReqC" {
+		return "Req-C"
+	}
 	return name
 }
 
@@ -250,7 +257,7 @@ func check(scen string, in In) []*mc.Violation {
 			if _, p2 := para.Values["Skip"]; p2 || strings.Contains(text, "zzz") {
 				vs = append(vs, mc.V(scen, "skipped-field-never-written", in, "no Skip field", fmt.Sprintf("%q", text), feats...))
 			}
-		case "Req", "ReqL":
+		case "Req", "ReqL", "ReqC":
 			if !present {
 				vs = append(vs, mc.V(scen, "required-always-written", in, n+" present", fmt.Sprintf("%q", text), feats...))
 			}
@@ -290,7 +297,7 @@ func check(scen string, in In) []*mc.Violation {
 		}
 	}
 	// deleting a required field's line makes Unmarshal fail
-	for _, n := range []string{"Req", "ReqL"} {
+	for _, n := range []string{"Req", "ReqL", "Req-C"} {
 		var kept []string
 		skipping := false
 		for _, l := range strings.SplitAfter(text, "\n") {
@@ -320,7 +327,7 @@ func check(scen string, in In) []*mc.Violation {
 type PT struct {
 	control.Paragraph
 	Known1 string
-	Known2 []string `control:"Known-Two" delim:", "`
+	Known2 []string        `control:"Known-Two" delim:", "`
 	Known3 version.Version `control:"Known-3"`
 }
 
